@@ -324,3 +324,56 @@ def histories(draw, o=None):
     proj = dict(proj)
     proj.pop("dometa", None)
     return {"project": proj, "cfg": cfg, "ops": ops}
+
+
+@st.composite
+def nested_chains(draw, o=None):
+    """Directed family (C02/C03): a chain of 4-6 targets with at least TWO checksummed levels and plain targets
+    between / above them, one private source per level (a checksummed level ignores its source's content in half of
+    the cases, so that an edit re-runs it without changing its checksum), optional side consumers.  Histories: build
+    the top, then rounds of "edit any subset of the sources, ask for the top (or top and a side consumer)"."""
+    o = dict(o or {})
+    n = draw(st.integers(4, 6))
+    targets = ["t%d" % i for i in range(n)]
+    sources = ["s%d" % i for i in range(n)]
+    stamped = set(_subset(draw, list(range(n - 1)), 2, 3))
+    dofiles = {}
+    for i, t in enumerate(targets):
+        body = []
+        own = ["dep", 0 if (i in stamped and draw(st.integers(0, 1))) else 1, [sources[i]]]
+        # (a checksummed level may also ignore the CONTENT of the level below: inner change, outer unchanged)
+        below = ["dep", 0 if (i in stamped and draw(st.integers(0, 99)) < 40) else 1, [targets[i - 1]]] if i > 0 else None
+        parts = [own] + ([below] if below else [])
+        if len(parts) == 2 and draw(st.integers(0, 99)) < 30:
+            parts = [["dep", 1, [sources[i], targets[i - 1]]]] if own[1] == 1 and below[1] == 1 else parts[::-1]
+        elif len(parts) == 2 and draw(st.integers(0, 1)):
+            parts = parts[::-1]
+        body += parts
+        body.append(["out", draw(st.sampled_from(["stdout", "file"]))])
+        if i in stamped:
+            body.append(["stamp"])
+        dofiles[t + ".do"] = {"v": 1, "body": body}
+    sides = []
+    for k in range(draw(st.integers(0, 2))):
+        x = "x%d" % k
+        deps = _subset(draw, targets[:-1], 1, 2)
+        dofiles[x + ".do"] = {"v": 1, "body": [["dep", 1, deps], ["out", "stdout"]]}
+        sides.append(x)
+    top = targets[-1]
+    ops = [["cmd", "ifchange", [top] + sides, ""]]
+    for _ in range(draw(st.integers(3, 7))):
+        for s in _subset(draw, sources, 1, 3):
+            ops.append(["edit", s, draw(st.integers(0, 2))])
+        k = draw(st.integers(0, 99))
+        if k < 60:
+            ops.append(["cmd", "ifchange", [top], ""])
+        elif k < 80 and sides:
+            ops.append(["cmd", "ifchange", [_pick(draw, sides), top] if draw(st.integers(0, 1)) else [top] + sides, ""])
+        elif k < 90:
+            ops.append(["cmd", "ifchange", [_pick(draw, targets[1:])], ""])
+            ops.append(["cmd", "ifchange", [top], ""])
+        else:
+            ops.append(["rmtarget", _pick(draw, targets[:-1])])
+            ops.append(["cmd", "ifchange", [top], ""])
+    proj = {"dirs": [""], "sources": sources, "dofiles": dofiles, "targets": targets + sides, "watch": ["w0", "w1"]}
+    return {"project": proj, "cfg": {"log": draw(st.integers(0, 1)), "keep_going": 0}, "ops": ops}
